@@ -123,9 +123,40 @@ def check_string(s, fs, plat, res):
                 res.add_violation(ID, run.viol('nonmagic-raises', inp, 'compiles', {'exc': type(ex).__name__}))
             else:
                 compare(m, singleton_regex(s, 'fn', win, ic), res, inp, 'nonmagic')
+    # ---- bytes twins: the escaped bytes pattern accepts the bytes name itself and agrees with the str matcher on
+    # near misses (every single deletion)
+    try:
+        sb = s.encode('latin-1')
+    except UnicodeEncodeError:
+        sb = None
+    if sb is not None:
+        variants = [s] + sorted({s[:i] + s[i + 1:] for i in range(len(s))} - {''})
+        for mode, mod in (('fn', F), ('glob', G)):
+            if mode == 'fn' and not set(fs) <= FN_OK:
+                continue
+            if mode == 'glob' and win and re.match(r'^([\\/]{2}|[a-zA-Z]:)', s):
+                continue
+            kw = {'unix': not win} if mode == 'glob' else {}
+            try:
+                ms = mod.compile(mod.escape(s, **kw), flags=fl | pf)
+                mb = mod.compile(mod.escape(sb, **kw), flags=fl | pf)
+                a = [bool(ms.match(x)) for x in variants]
+                b = [bool(mb.match(x.encode('latin-1'))) for x in variants]
+            except Exception as ex:  # noqa: BLE001
+                a, b = 'ok', type(ex).__name__
+            res.n['evaluations'] += 1
+            if a != b:
+                res.add_violation(ID, run.viol('escape-bytes-differs', {'mode': mode, 's': s, 'flags': fs, 'plat': plat,
+                                                                        'names': variants}, a, b))
     # ---- glob.escape on paths
     res.n['evaluations'] += 1
     e = G.escape(s, unix=not win)
+    if not win and not fs:
+        # the default (unix=None) follows the host, and this host is not Windows
+        e0 = G.escape(s)
+        if e0 != e:
+            res.add_violation(ID, run.viol('escape-default-platform', {'mode': 'glob', 's': s, 'flags': fs, 'plat': plat},
+                                           {'escape': e}, {'escape': e0}))
     inp = {'mode': 'glob', 's': s, 'escaped': e, 'flags': fs, 'plat': plat}
     try:
         m = G.compile(e, flags=fl | pf)
@@ -191,6 +222,10 @@ def drive_bounds(s):
 
 
 def check_drives(res):
+    # on a Unix host (or with unix=True) the same strings are ordinary paths
+    for sh in DRIVE_SHAPES:
+        for fs in ('', 'E', 'EBS', 'EBSNDGZ'):
+            check_string(sh, fs, 'U', res)
     for fs in covering('EBSNDGZI') + ['C', 'CEBS']:
         fl = 0
         for ch in fs:
@@ -391,6 +426,19 @@ def replay(v):
         check_walk(r)
         hit = [x for x in r.viol if x['input'] == run.jsonable(inp)]
         return {'violates': bool(hit), 'observed': hit[0]['observed'] if hit else 'ok'}
+    if kind == 'escape-default-platform':
+        e0 = G.escape(s)
+        return {'violates': e0 != G.escape(s, unix=True), 'observed': {'escape': e0}}
+    if kind == 'escape-bytes-differs':
+        kw = {'unix': not win} if inp['mode'] == 'glob' else {}
+        try:
+            ms = mod.compile(mod.escape(s, **kw), flags=fl | pf)
+            mb = mod.compile(mod.escape(s.encode('latin-1'), **kw), flags=fl | pf)
+            a = [bool(ms.match(x)) for x in inp['names']]
+            b = [bool(mb.match(x.encode('latin-1'))) for x in inp['names']]
+        except Exception as ex:  # noqa: BLE001
+            a, b = 'ok', type(ex).__name__
+        return {'violates': a != b, 'observed': b}
     if kind.startswith('nonmagic'):
         patt = s
         if mod.is_magic(s, flags=fl | pf):
